@@ -94,13 +94,13 @@ struct FaultOutcome {
     std::string debug;
     uint256 hash;
     uint256 tip_before, tip_after;
-    uint256 utxo_before, utxo_after; //!< hash_serialized (after flush)
+    uint256 utxo_before, utxo_after; //!< hash_serialized (after flush); both null when with_utxo_hash=false (no flush is forced then)
     bool became_tip{false};
     bool untouched() const { return tip_before == tip_after && utxo_before == utxo_after; }
 };
 /** Finalize (merkle root, optional witness commitment, nonce), register with the ledger/block store and deliver `b`;
  *  reports the verdict and whether tip / hash_serialized changed. The caller decides what is expected. */
-FaultOutcome DeliverFault(ChainSim& sim, CBlock& b, bool commit_witness = true, bool finalize = true);
+FaultOutcome DeliverFault(ChainSim& sim, CBlock& b, bool commit_witness = true, bool finalize = true, bool with_utxo_hash = true);
 
 /** True if the node's coins view (cache over DB) has an unspent coin for `op`. */
 bool NodeHaveCoin(ChainSim& sim, const COutPoint& op);
